@@ -1340,4 +1340,139 @@ example :
      | .ok out => out.charts.map ofTChart == [ofBMSRead c]
      | .error _ => false) = true := by decide +kernel
 
+/-! ## the written `#BPMS` of a measure-line tempo list -/
+
+theorem zip_map_self' {α β} (l : List α) (f : α → β) : (l.map f).zip l = l.map (fun a => (f a, a)) := by
+  induction l with
+  | nil => rfl
+  | cons a t ih => simp [ih]
+
+/-- **the `#BPMS` pairs `SMMapSet.write` emits for a measure-line tempo list**: when the first chart's tempo list is the
+stored form of `cs` from `t0` (C10's domain, 4-beat metronome), every change of `cs` sits on a measure line and the stored
+times are on the snap grid, the written pairs are `round6 (4·measure) = bpm` in the order of `cs` — so they denote `cs`
+(C03 `changesOf_written_measure_lines`) and are in beat order. -/
+theorem written_bpms_measure_lines (t0 : Rat) (cs : List BcSnap)
+    (hwf : wfChanges cs = true) (hs : sortedSnaps cs = true) (h0 : firstAtZero cs = true)
+    (hgc : gridCompatible (grid defaultMaxDiv) cs = true) (hm : metronomeOk cs = true)
+    (hl : ∀ c ∈ cs, c.snap.beat = 0 ∧ c.met = 4 ∧ c.snap.met = some 4)
+    (h : SM.WHeader) (c0 : SM.WChart) (rest : List SM.WChart) (w : SM.Written)
+    (hb : SM.toTimingMap c0.bpms = tmOf t0 cs)
+    (htb : ∀ t ∈ c0.bpms.map (·.1), OnGridAt (grid defaultMaxDiv) t0 cs t)
+    (hw : SM.write h (c0 :: rest) = .ok w) :
+    w.bpms = cs.map (fun c => (SM.round6 (4 * (c.snap.measure : Rat)), c.bpm)) ∧
+    SM.changesOf w.bpms = cs ∧ w.bpms.Pairwise (fun x y => decide (x.1 ≤ y.1) = true) := by
+  have hM : ∀ c ∈ cs, c.met = 4 := fun c hc => (hl c hc).2.1
+  have hg : defaultGrid.toList = grid defaultMaxDiv := by simp [defaultGrid]
+  have hbeats : beats defaultGrid (SM.toTimingMap c0.bpms) (c0.bpms.map (·.1)) =
+      .ok ((c0.bpms.map (·.1)).map (beatAt t0 cs)) := by
+    rw [hb]
+    exact beats_run_exact defaultGrid (gridOK_grid (by decide)) t0 cs hwf hs h0 (by rw [hg]; exact hgc) hm 4 hM _
+      (by rw [hg]; exact htb)
+  have e : w.bpms = c0.bpms.map (fun p => (SM.round6 (beatAt t0 cs p.1), p.2)) := by
+    unfold SM.write at hw
+    simp only [hbeats, bind, Except.bind] at hw
+    split at hw
+    · cases hw
+    · cases hw
+      simp only [List.map_map, zip_map_self']
+      rfl
+  have h1 : c0.bpms.map (·.1) = changeTimes t0 cs := by
+    rw [← stored_times_eq_changeTimes t0 cs hwf hs, ← hb]; simp [SM.toTimingMap]
+  have h2 : c0.bpms.map (·.2) = cs.map (·.bpm) := by
+    rw [← tmOf_bpms' t0 cs, ← hb]; simp [SM.toTimingMap]
+  have hc0 : c0.bpms = cs.map (fun c => (timeAt t0 cs c.snap, c.bpm)) := by
+    rw [← zip_map_fst_snd c0.bpms, h1, h2]
+    unfold changeTimes
+    rw [List.zip_map']
+  have hnn : ∀ c ∈ cs, 0 ≤ c.snap.measure := by
+    cases cs with
+    | nil => intro c hc; cases hc
+    | cons f rest' =>
+      simp only [firstAtZero, Bool.and_eq_true, decide_eq_true_eq] at h0
+      intro c hc
+      rcases List.mem_cons.mp hc with rfl | hc'
+      · exact le_of_eq h0.1.symm
+      · have hle := sortedSnaps_head_le hs c hc'
+        have hcb := (hl c hc).1
+        simp only [Snap.le, Snap.lt, Snap.eqv, h0.1, h0.2, hcb, Bool.or_eq_true, Bool.and_eq_true,
+          decide_eq_true_eq] at hle
+        rcases hle with (h' | h') | h'
+        · exact le_of_lt h'
+        · exact le_of_eq h'.1
+        · exact le_of_eq h'.1
+  have hw' : w.bpms = cs.map (fun c => (SM.round6 (4 * (c.snap.measure : Rat)), c.bpm)) := by
+    rw [e, hc0, List.map_map]
+    apply List.map_congr_left
+    intro c hc
+    have hcb := (hl c hc).1
+    have hq : queryOk cs c.snap = true := C02.queryOk_of_nonneg cs h0 c.snap (hnn c hc) (by rw [hcb])
+    have := beatAt_timeAt_absBeat t0 cs c.snap hwf hs h0 hM hq (by rw [hcb]; decide)
+    simp only [Function.comp, this, SM.absBeat, hcb, Rat.add_zero]
+  refine ⟨hw', ?_, ?_⟩
+  · rw [hw']; exact C03.changesOf_written_measure_lines cs hs hl
+  · rw [hw']
+    have hr : ∀ m : Int, SM.round6 (4 * (m : Rat)) = 4 * (m : Rat) := by
+      intro m
+      have := C03.round6_exact (4000000 * m)
+      have e' : ((4000000 * m : Int) : Rat) / 1000000 = 4 * (m : Rat) := by push_cast; ring
+      rw [e'] at this; exact this
+    rw [List.pairwise_map]
+    refine (sortedSnaps_pairwise hs).imp_of_mem ?_
+    intro a b ha hb' hab
+    simp only [hr, decide_eq_true_eq]
+    have hba := (hl b hb').1
+    have haa := (hl a ha).1
+    simp only [Snap.le, Snap.lt, Snap.eqv, haa, hba, Bool.or_eq_true, Bool.and_eq_true, decide_eq_true_eq] at hab
+    have : a.snap.measure ≤ b.snap.measure := by
+      rcases hab with (h' | h') | h'
+      · exact le_of_lt h'
+      · exact le_of_eq h'.1
+      · exact le_of_eq h'.1
+    have : (a.snap.measure : Rat) ≤ (b.snap.measure : Rat) := by exact_mod_cast this
+    linarith
+
+/-- **for measure-line tempo lists the two ties of `SMWritable` to the written header are theorems**: the exact regime
+demands tempo points on measure lines anyway (`gridExact`'s `onMeasureLines`); then `changesOf w.bpms = cs` and the beat
+order of `w.bpms` follow from the chart side (`written_bpms_measure_lines`), given that the stored tempo times are on the
+snap grid (`htb`).  All hypotheses left are about the renderer, the tempo list `cs`, the header `h` and the chart `c`. -/
+theorem smWritable_of_measure_lines (sh : SM.Shows) (t0 : Rat) (cs : List BcSnap) (h : SM.WHeader) (c : SM.WChart)
+    (w : SM.Written) (hsh : SM.ShowsOK sh) (hsp : SM.ShowsParse sh)
+    (hwf : wfChanges cs = true) (hs : sortedSnaps cs = true) (h0 : firstAtZero cs = true)
+    (hgc : gridCompatible (grid defaultMaxDiv) cs = true) (hm : metronomeOk cs = true)
+    (hl : ∀ c ∈ cs, c.snap.beat = 0 ∧ c.met = 4 ∧ c.snap.met = some 4)
+    (hw : SM.write h [c] = .ok w) (hL : ∃ out, C03.ChartWritten t0 cs c out)
+    (hstr : ∀ ta ∈ SM.stringTags, SM.CleanParam ((h.strs.lookup ta.2).getD []))
+    (hch : SM.CleanParam c.chartType ∧ SM.CleanParam c.description ∧ SM.CleanParam c.difficulty ∧
+      '\n' ∉ c.chartType ∧ '\n' ∉ c.difficulty)
+    (ho : h.offset = t0) (htb : ∀ t ∈ c.bpms.map (·.1), OnGridAt (grid defaultMaxDiv) t0 cs t) :
+    SMWritable sh t0 cs h c w := by
+  obtain ⟨out, keys, a1, a2, a3, hb, a5⟩ := hL
+  obtain ⟨_, hbp, hsorted⟩ := written_bpms_measure_lines t0 cs hwf hs h0 hgc hm hl h c [] w hb htb hw
+  exact ⟨hsh, hsp, hwf, hs, h0, hgc, hm, fun c hc => (hl c hc).2.1, hw, ⟨out, keys, a1, a2, a3, hb, a5⟩, hstr, hch, ho,
+    hbp, hsorted⟩
+
+/-- non-vacuity of `hl` / `htb` on the tempo list of the examples above -/
+example :
+    let cs : List BcSnap := [⟨120, 4, ⟨0, 0, some 4⟩⟩, ⟨60, 4, ⟨2, 0, some 4⟩⟩]
+    (∀ c ∈ cs, c.snap.beat = 0 ∧ c.met = 4 ∧ c.snap.met = some 4) ∧
+    (∀ t ∈ [(500 : Rat), 4500], OnGridAt (grid defaultMaxDiv) 500 cs t) := by
+  have hz : (0 : Rat) ∈ grid defaultMaxDiv := by
+    have := (gridOK_grid (by decide) : GridOK defaultGrid).zero_mem
+    simpa [defaultGrid] using this
+  have e1 : (500 + snapDist (⟨0, 0, some 4⟩ : Snap) ⟨2, 0, some 4⟩ 4 * beatLen 120 : Rat) = 4500 := by decide +kernel
+  have f1 : frac (((500 : Rat) - 500) / beatLen 120) = 0 := by decide +kernel
+  have f2 : frac (((4500 : Rat) - 4500) / beatLen 60) = 0 := by decide +kernel
+  refine ⟨by decide +kernel, ?_⟩
+  intro t ht
+  simp only [List.mem_cons, List.not_mem_nil, or_false] at ht
+  rcases ht with rfl | rfl
+  · refine ⟨by decide +kernel, ?_⟩
+    simp only [onGridAux, e1]
+    rw [if_neg (by decide +kernel), f1]
+    exact hz
+  · refine ⟨by decide +kernel, ?_⟩
+    simp only [onGridAux, e1]
+    rw [if_pos (by decide +kernel), f2]
+    exact hz
+
 end Reamber.Pipeline
